@@ -2,9 +2,12 @@
 from props import compile_common as cc
 
 LEVEL = 'proof'
-MODULES = ['Pysmi.Props.C19']
-LAKE_TARGETS = ['Pysmi.Props.C19']
+MODULES = ['Pysmi.Props.C19', 'Pysmi.Pins.Compile', 'Pysmi.Pins.SkelC19']
+LAKE_TARGETS = ['Pysmi.Props.C19', 'Pysmi.Pins.Compile', 'Pysmi.Pins.SkelC19']
 THEOREMS = [
+    'Pysmi.Pins.SkelC19.pin_anyFileBorrower',
+    'Pysmi.Pins.Compile.pin_statuses',
+    'Pysmi.Pins.Compile.pin_skeleton',
     'Pysmi.Compile.C19_borrowLoop_first',
     'Pysmi.Compile.C19_only_failed',
     'Pysmi.Compile.C19_requested_eligible',
